@@ -93,7 +93,7 @@ def stepSess [DecidableEq K] [LT K] [DecidableRel (α := K) (· < ·)]
     let ks := fun (_ : Unit) => LEnum.drain cm.count cm.openEnum
     let absOk := match op with
       | .entries => decide (cm.enumEntries s.hash (ks ()) = sp.ents) && decide (cm.count = sp.ents.length) && decide (cm.max = sp.max)
-      | .keys => decide (Out.keys (ks ()) = o1)
+      | .keys => decide (Out.keys (ks ()) = o1) && decide (LEnum.takeN cm.count cm.openEnum = ks ())
       | .values => decide (Out.vals (cm.enumValues s.hash (ks ())) = o1)
       | _ => true
     let txt := showOut sk s.sv o1
